@@ -58,9 +58,10 @@ const (
 	EndFIN                     // FIN without close_notify (truncation attack shape)
 	EndRST
 	EndStall
+	EndRSTLate // RST right behind the data: the client can read everything, then meets the reset (a plain RST overtakes data in flight)
 )
 
-var endingNames = []string{"fin+close_notify", "fin", "rst", "stall"}
+var endingNames = []string{"fin+close_notify", "fin", "rst", "stall", "rst-after-delivery"}
 
 type Fault struct {
 	Kind  FaultKind
@@ -367,6 +368,8 @@ func (w *World) serve(h *Host, cr *ConnRec, ep *simnet.Endpoint) {
 			ep.Reset()
 		case EndStall:
 			ep.Stall()
+		case EndRSTLate:
+			ep.ResetAfterData()
 		}
 		return
 	case FTrickle:
